@@ -764,8 +764,35 @@ def check_c20(tier):
     return R.finish()
 
 
+CLS_CFG = 'SPECIFICATION Spec\nINVARIANT HistoryFree\nINVARIANT Exported\nCONSTANTS MAXHIST = %d\n EXPORT = %d\n'
+
+
 def class_state_stage(R, prop, tier):
-    pass
+    """
+    (M) ClassState.tla: every history of up to 3 initialize() calls over 35 configurations, with comparisons dirtying the statistics in
+    between: what the new election reads is history-free.  (S->C) exported histories are replayed on the real classes and every class
+    attribute (also the stale ones) is compared with the model's prediction, so a reset that moves into one branch is noticed.
+    """
+    res = vlib.tlc('ClassState', CLS_CFG % (3, 53 if tier == 'quick' else 3), workers=8, heap_mb=2048, timeout=900)
+    R.add_tlc(res)
+    viol = re.search(r'Invariant (\w+) is violated', res['out'])
+    R.stage('model-check ClassState.tla', distinct_states=res['distinct'], wall_s=round(res['wall'], 1), invariant_violated=viol.group(1) if viol else None)
+    if viol:
+        raise vlib.Machinery('ClassState.tla: %s violated in the specification (to be triaged):\n%s' % (viol.group(1), res['out'][-2000:]))
+    if 'Error:' in res['out']:
+        raise vlib.Machinery('TLC error in ClassState.tla:\n' + res['out'][-2500:])
+    cases = history.cls_cases(res['out'])
+    nd = 0
+    for case in cases:
+        diffs = history.replay_class_case(case)
+        R.cov['traces_validated_against_impl'] += 1
+        R.cov['evaluations'] += 1
+        if diffs:
+            nd += 1
+            R.violation('C20: after the history %s the class attribute %s is %s, a fresh process / the specification has %s' % (
+                [(h['cls'], h['p'], h['g'], h['d']) for h in case['hist']], diffs[0][0], diffs[0][2], diffs[0][1]),
+                dict(history=case['hist'], differences=diffs))
+    R.stage('spec->code replay of class-state histories', cases=len(cases), differences=nd)
 
 
 # ----------------------------------------------------------------------------------------
